@@ -15,7 +15,6 @@ import (
 	"github.com/grafana/cog/verifharness/e2"
 	"github.com/grafana/cog/verifharness/smodel"
 	"github.com/grafana/cog/verifharness/vlib"
-	"github.com/grafana/cog/verifharness/walk"
 	"pgregory.net/rapid"
 )
 
@@ -32,6 +31,9 @@ type c07Case struct {
 	// its definitions, Altered of them changed
 	Second  *schemaCase `json:"second,omitempty"`
 	Altered []string    `json:"altered,omitempty"`
+	// Spread (index-aligned with Pipe.Inputs, nil entries allowed): the
+	// definitions of that input live in several packages referring to each other
+	Spread []*c07Spread `json:"spread,omitempty"`
 }
 
 func languageFiles(files map[string]string, lang string) map[string]string {
@@ -87,18 +89,41 @@ func c07Check(c c07Case) []vlib.Violation { return c07CheckRun(nil, c) }
 func c07CheckRun(run *vlib.Run, c c07Case) []vlib.Violation {
 	work := workDir("c07")
 	defer removeAll(work)
-	inputs := c.Pipe.inputSpecs()
+	inputs := c.specs()
 	full := c.Pipe.spec(c.Pipe.Languages)
 	eval := func(tags ...string) {
 		if run != nil {
-			run.Eval(vlib.HashBytes([]byte(fmt.Sprint(inputs)), []byte(c.Mode), []byte(c.Alone), []byte(fmt.Sprint(c.Perm)), []byte(strings.Join(c.Pipe.Languages, ","))), append([]string{"mode:" + c.Mode}, tags...)...)
+			run.Eval(vlib.HashBytes([]byte(fmt.Sprint(inputs)), []byte(c.Mode), []byte(c.Alone), []byte(fmt.Sprint(c.Perm)), []byte(strings.Join(c.Pipe.Languages, ",")), []byte(strings.Join(c.Pipe.Config.Veneers, "\n"))), append([]string{"mode:" + c.Mode}, tags...)...)
+		}
+	}
+	linked := false
+	for _, sp := range c.Spread {
+		linked = linked || sp != nil
+	}
+	reject := func(errs ...string) {
+		count(run, "rejected", 1)
+		if linked {
+			count(run, "rejected_linked", 1)
+			for _, e := range errs {
+				if e != "" {
+					note(run, "a pipeline with linked packages is refused: %s", errSummary(e))
+					break
+				}
+			}
+		}
+	}
+	ran := func() {
+		count(run, "programs", 1)
+		if linked {
+			count(run, "programs_linked", 1)
 		}
 	}
 	switch c.Mode {
 	case "siblings":
-		all := runPipe(filepath.Join(work, "in"), inputs, full, false)
-		alone := runPipe(filepath.Join(work, "in"), inputs, c.Pipe.spec([]string{c.Alone}), false)
+		all := c07RunPipe(filepath.Join(work, "in"), inputs, full)
+		alone := c07RunPipe(filepath.Join(work, "in"), inputs, c.Pipe.spec([]string{c.Alone}))
 		if all.panicked || alone.panicked {
+			note(run, "panic: %s %s", all.err, alone.err)
 			count(run, "skipped_panics", 1)
 			return nil
 		}
@@ -108,24 +133,31 @@ func c07CheckRun(run *vlib.Run, c c07Case) []vlib.Violation {
 			if alone.err != "" {
 				return []vlib.Violation{vlib.V("siblings:alone-fails-together-succeeds:"+c.Alone, "%s alone: %s; with %v: success", c.Alone, firstLine(alone.err), c.Pipe.Languages)}
 			}
-			count(run, "rejected", 1)
+			reject(all.err, alone.err)
 			return nil
 		}
 		if all.err != "" {
-			count(run, "rejected", 1)
+			reject(all.err)
 			return nil
 		}
-		count(run, "programs", 1)
+		ran()
 		eval("alone:" + c.Alone)
 		return dedupeViolations(reportFileDiffs("siblings", languageFiles(alone.files, c.Alone), languageFiles(all.files, c.Alone), fmt.Sprintf("%s generated alone vs together with %v", c.Alone, c.Pipe.Languages)))
 	case "order":
-		a := runPipe(filepath.Join(work, "in"), inputs, full, false)
-		var permuted []e2.InputSpec
+		a := c07RunPipe(filepath.Join(work, "in"), inputs, full)
+		var permuted []c07Spec
 		for _, i := range c.Perm {
-			permuted = append(permuted, c.Pipe.Inputs[i].inputs()...)
+			if len(c.Perm) == len(inputs) {
+				// a permutation of the pipeline's inputs (one per package)
+				permuted = append(permuted, inputs[i])
+			} else {
+				// replays of the first version: a permutation of the generated models
+				permuted = append(permuted, c.specsOf(i)...)
+			}
 		}
-		b := runPipe(filepath.Join(work, "in2"), permuted, full, false)
+		b := c07RunPipe(filepath.Join(work, "in2"), permuted, full)
 		if a.panicked || b.panicked {
+			note(run, "panic: %s %s", a.err, b.err)
 			count(run, "skipped_panics", 1)
 			return nil
 		}
@@ -133,38 +165,34 @@ func c07CheckRun(run *vlib.Run, c c07Case) []vlib.Violation {
 			return []vlib.Violation{vlib.V("order:outcome-differs", "inputs in order: %q; permuted %v: %q", firstLine(a.err), c.Perm, firstLine(b.err))}
 		}
 		if a.err != "" {
-			count(run, "rejected", 1)
+			reject(a.err)
 			return nil
 		}
-		count(run, "programs", 1)
+		ran()
 		eval()
 		return dedupeViolations(reportFileDiffs("order", a.files, b.files, fmt.Sprintf("inputs in order vs permuted %v", c.Perm)))
 	case "extra-input":
 		// the first input alone vs with the others (packages nothing refers to)
-		first := c.Pipe.Inputs[0]
-		a := runPipe(filepath.Join(work, "in"), first.inputs(), full, false)
-		b := runPipe(filepath.Join(work, "in2"), inputs, full, false)
+		a := c07RunPipe(filepath.Join(work, "in"), c.specsOf(0), full)
+		b := c07RunPipe(filepath.Join(work, "in2"), inputs, full)
 		if a.panicked || b.panicked {
+			note(run, "panic: %s %s", a.err, b.err)
 			count(run, "skipped_panics", 1)
 			return nil
 		}
 		if a.err != "" || b.err != "" {
-			count(run, "rejected", 1)
+			reject(a.err, b.err)
 			return nil
 		}
-		count(run, "programs", 1)
+		ran()
 		eval()
 		var out []vlib.Violation
-		pkgs := []string{first.Model.Package}
-		if first.SplitPkg != "" {
-			pkgs = append(pkgs, first.SplitPkg)
-		}
-		for _, pkg := range pkgs {
+		for _, pkg := range c.packagesOf(0) {
 			out = append(out, reportFileDiffs("extra-input", packageFiles(a.files, pkg), packageFiles(b.files, pkg), fmt.Sprintf("files of package %s, generated without vs with %d unrelated inputs", pkg, len(c.Pipe.Inputs)-1))...)
 		}
 		return dedupeViolations(out)
 	case "merge":
-		both := append(append([]e2.InputSpec{}, inputs...), c.Second.inputs()...)
+		both := append(plainSpecs(inputs), c.Second.inputs()...)
 		var schemasJSON string
 		var lerr error
 		_, msg, panicked := vlib.Guard(func() {
@@ -208,36 +236,7 @@ func c07CheckRun(run *vlib.Run, c c07Case) []vlib.Violation {
 		}
 		return dedupeViolations(out)
 	case "purity":
-		var out []vlib.Violation
-		_, msg, panicked := vlib.Guard(func() {
-			pl, err := e2.NewPipeline(filepath.Join(work, "in"), "x/%l", inputs, e2.OutputSpec{})
-			if err != nil {
-				return
-			}
-			schemas, err := e2.LoadSchemas(pl)
-			if err != nil {
-				count(run, "rejected", 1)
-				return
-			}
-			count(run, "programs", 1)
-			before := walk.Canon(schemas)
-			for _, l := range c.Pipe.Languages {
-				_, cerr := cogx.ContextFor(cogx.NewLanguage(l), schemas, c.Pipe.Config.Builders)
-				after := walk.Canon(schemas)
-				if after != before {
-					path, detail, _ := walk.Diff(before, after)
-					_ = path
-					out = append(out, vlib.V("purity:schemas-mutated:"+l, "the schemas handed to the %s pass chain were modified by it (error=%v): %s", l, cerr, short80(detail)))
-					before = after
-				}
-				eval("purity:" + l)
-			}
-		})
-		if panicked {
-			count(run, "skipped_panics", 1)
-			note(run, "panic in a language chain: %s", firstLine(msg))
-		}
-		return dedupeViolations(out)
+		return c07Purity(run, c, work, eval)
 	}
 	return []vlib.Violation{vlib.V("harness", "unknown mode %q", c.Mode)}
 }
@@ -302,26 +301,68 @@ func TestC07(t *testing.T) {
 	run := vlib.Begin(t, "C07")
 	defer run.Finish(t)
 	run.Describe(
-		"Each rapid case is a generated pipeline (1-3 inputs of distinct packages in the three formats, two-package OpenAPI inputs, the composable family with its compose veneer, optional option-rename veneers, every flag, a subset of the seven output languages) and one of five metamorphic relations, each an exact equality of path -> sha256 maps: (siblings) the files under a language's directory are the same whether it is generated alone or with the other selected languages; (order) permuting inputs of different packages changes no file; (extra-input) the files belonging to the first input's package(s) are the same with and without the other, unrelated inputs; (merge) a second input of the SAME package holding a reference-closed subset of the first one's definitions, 0..n of them altered: any altered definition makes LoadSchemas fail, none altered gives the union; (purity) a reflective canonical snapshot (defaults, hints, entry point type, slice contents) of the schemas returned by LoadSchemas is unchanged after ContextForLanguage ran each language's pass chain and builder derivation on them. Non-trivial: every case whose runs succeed; distinct by (inputs, mode, parameters).",
+		"Each rapid case is a generated pipeline (1-3 generated models of distinct packages in the three formats, two-package OpenAPI inputs, the composable family with its compose veneer, optional option-rename veneers, per-input and pipeline-level transformation files, every flag, a subset of the seven output languages) and one of five metamorphic relations. Half of the pipelines hold a LINKED input: a model enriched with named non-struct definitions (aliases of string / int / bool / float / date-time, a constant, array, map and union-of-scalars aliases, aliases of other definitions, of structs and enums; some with a default) that the structs refer to plainly, from arrays and from maps, its reference-closed definitions spread over one or two further packages (lib<pkg>, base<pkg>; a package only refers to later ones), rendered as OpenAPI files with cross-file $refs or as CUE packages importing each other (cue_imports); every package is a pipeline input of its own. In a third of the siblings / order cases with builders, and in most purity cases, the veneers are a chain of 3-10 rules drawn against the builders of one of the selected languages: mostly option rules fitting the type of the selected option's argument (unfold_boolean, array_to_append, map_to_index, disjunction_as_options, struct_fields_as_arguments / _as_options with or without explicit fields; half of the time an option that carries a default value), the rest any builder / option rule of C17's generator (omit, rename, duplicate, merge_into, properties, promote_options_to_constructor, rename_arguments, add_comments; exact, case-flipped and absent targets), scope all or one language. Purity cases also give struct-typed fields object-valued defaults (CUE: on the reference; JSON Schema / OpenAPI: on the referred definition). Relations, the first three exact equalities of path -> sha256 maps: (siblings) the files under a language's directory are the same whether it is generated alone or with the other selected languages; (order) ANY permutation of the pipeline's inputs (one per package, so packages that refer to each other are listed in both orders and unrelated inputs land between them) changes no file and not the outcome; (extra-input) the files belonging to the packages of the first generated model are the same with and without the other, unrelated inputs; (merge) a second input of the SAME package holding a reference-closed subset of the first one's definitions, 0..n of them altered: any altered definition makes LoadSchemas fail, none altered gives the union; (purity) every stage of Pipeline.Run that is handed schemas is run by hand and a reflective canonical snapshot (defaults, hints, entry point type, slice contents, unexported fields) of what it was handed is compared before / after: the pipeline's common transformations and each language's pass chain on the schemas LoadSchemas returned; builder derivation, the veneer chain (yaml.VeneersLoader + Rewriter.ApplyTo, as ContextForLanguage applies it) and nil-check generation on the language's own copy of the schemas; and the shared schemas again after all of them. Non-trivial: every case whose runs succeed; distinct by (inputs, mode, parameters, veneers).",
 		"package-specific files = a path segment or file base name equal to the package name, case-insensitively; shared index / runtime files are exempt from the extra-input relation",
 		"merge inputs are CUE or OpenAPI (JSON Schema only declares what its root reaches)",
+		"cross-package references exist in OpenAPI and CUE inputs only (the JSON Schema front end has none)",
+		"a veneer chain that the loader or a rule refuses with an error is an acceptable outcome (counted); the schemas must be intact all the same",
+		"only the schemas are snapshotted around the veneer chain, not the builders handed to it (the property speaks of the schemas)",
 	)
 	if vlib.RunReplay(t, run, c07Check) {
 		return
 	}
 	rapid.Check(t, func(rt *rapid.T) {
-		mode := rapid.SampledFrom([]string{"siblings", "siblings", "order", "extra-input", "merge", "purity"}).Draw(rt, "mode")
+		mode := rapid.SampledFrom([]string{"siblings", "siblings", "order", "order", "extra-input", "merge", "purity", "purity", "purity"}).Draw(rt, "mode")
 		c := c07Case{Mode: mode}
+		// half of the pipelines hold an input whose definitions are spread over
+		// packages that refer to each other
+		relink := func() {
+			if rapid.Bool().Draw(rt, "linked") {
+				c.Spread = c07Relink(rt, &c.Pipe)
+			}
+		}
+		// a veneer chain drawn against the builders of one of the languages
+		richVeneers := func() {
+			var code []string
+			for _, l := range c.Pipe.Languages {
+				if isCodeLanguage(l) {
+					code = append(code, l)
+				}
+			}
+			if !c.Pipe.Config.Builders || len(code) == 0 {
+				return
+			}
+			lang := rapid.SampledFrom(code).Draw(rt, "veneerlang")
+			if schemas, builders, ok := c07Derive(c, lang); ok {
+				rules := c07DrawVeneerRules(rt, lang, schemas, builders)
+				c.Pipe.Config.Veneers = veneerContents(rules)
+				run.Label("rich-veneers")
+				for _, r := range rules {
+					run.Label("veneer:" + r.On + ":" + r.Kind)
+				}
+			} else {
+				count(run, "no_builders_to_draw_veneers_against", 1)
+			}
+		}
 		switch mode {
 		case "siblings":
 			c.Pipe = drawPipeCase(rt, 2, 2)
+			relink()
+			if rapid.IntRange(0, 2).Draw(rt, "richveneers") == 0 {
+				richVeneers()
+			}
 			c.Alone = rapid.SampledFrom(c.Pipe.Languages).Draw(rt, "alone")
 		case "order":
 			c.Pipe = drawPipeCase(rt, 3, 1)
-			for len(c.Pipe.Inputs) < 2 {
-				c.Pipe = drawPipeCase(rt, 3, 1)
+			relink()
+			for len(c.specs()) < 2 {
+				c.Pipe, c.Spread = drawPipeCase(rt, 3, 1), nil
+				relink()
 			}
-			c.Perm = rapid.Permutation(seqInts(len(c.Pipe.Inputs))).Draw(rt, "perm")
+			if rapid.IntRange(0, 2).Draw(rt, "richveneers") == 0 {
+				richVeneers()
+			}
+			c.Perm = rapid.Permutation(seqInts(len(c.specs()))).Draw(rt, "perm")
 			if sort.IntsAreSorted(c.Perm) {
 				c.Perm[0], c.Perm[1] = c.Perm[1], c.Perm[0]
 			}
@@ -330,6 +371,7 @@ func TestC07(t *testing.T) {
 			for len(c.Pipe.Inputs) < 2 || c.Pipe.Inputs[0].Model == nil {
 				c.Pipe = drawPipeCase(rt, 3, 1)
 			}
+			relink()
 			c.Pipe.Config.Veneers = nil
 		case "merge":
 			f := rapid.SampledFrom([]smodel.Format{smodel.CUE, smodel.OpenAPI}).Draw(rt, "format")
@@ -344,12 +386,46 @@ func TestC07(t *testing.T) {
 			}
 		case "purity":
 			c.Pipe = drawPipeCase(rt, 2, 1)
+			relink()
 			c.Pipe.Config.Veneers = nil
+			// object-valued defaults: what builder derivation and veneers copy around
+			for i := range c.Pipe.Inputs {
+				if m := c.Pipe.Inputs[i].Model; m != nil && rapid.IntRange(0, 3).Draw(rt, "structdefaults") != 0 {
+					c07AddStructDefaults(rt, m)
+				}
+			}
+			// a veneer chain drawn against the builders of one of the languages
+			c.Pipe.Config.Builders = c.Pipe.Config.Builders || rapid.Bool().Draw(rt, "builders+")
+			var code []string
+			for _, l := range c.Pipe.Languages {
+				if isCodeLanguage(l) {
+					code = append(code, l)
+				}
+			}
+			if c.Pipe.Config.Builders && len(code) == 0 {
+				code = []string{rapid.SampledFrom(cogx.CodeLanguages).Draw(rt, "codelang")}
+				c.Pipe.Languages = sortedCopy(append(c.Pipe.Languages, code[0]))
+			}
+			if rapid.IntRange(0, 5).Draw(rt, "noveneers") != 0 {
+				richVeneers()
+			}
 		}
 		pipeLabels(run, c.Pipe)
+		spreadLabels(run, c)
 		sample := pipeSample(c.Pipe)
 		sample["mode"], sample["alone"], sample["perm"], sample["altered"] = c.Mode, c.Alone, c.Perm, c.Altered
+		var pkgs []string
+		for _, s := range c.specs() {
+			pkgs = append(pkgs, string(s.Format)+":"+s.Package)
+		}
+		sample["packages"] = pkgs
 		run.Sample(sample)
+		if tamedDefaults > 0 {
+			// kept out by construction: see c07TameDefaults (typescript prints
+			// default objects nested in collections in Go's map order)
+			count(run, "excluded_by_construction:default_object_inside_collection", tamedDefaults)
+			tamedDefaults = 0
+		}
 		if vs := c07CheckRun(run, c); len(vs) > 0 {
 			vlib.Fail(rt, run.Judge(c, vs))
 		}
